@@ -209,6 +209,13 @@ def r2_entry_point_status(ctx: Ctx) -> None:
         if isinstance(n, ast.Expr) and isinstance(n.value, ast.Call) and (call_name(n.value) or "").endswith("logger.info") and "Success" in unparse(n.value):
             succ_nodes.append(("success log", g.node_of(n)))
     if not any(k.startswith("return") for k, _ in succ_nodes):
+        all_rets = [n for n in walk_no_nested(awe.node) if isinstance(n, ast.Return)]
+        from ..match import const_int as _ci14
+
+        if all_rets and all(r.value is not None and _ci14(r.value) not in (None, 0) for r in all_rets):
+            ctx.fail("assemble_with_emitter:success-status", "every return is a non-zero literal: a completed assembly is reported as a failure (zero status is given exactly when "
+                     "every statement was assembled and written)")
+            return
         raise AnalysisError("assemble_with_emitter: success return not found")
     for t in _tries(awe.node):
         for h in t.handlers:
